@@ -48,7 +48,7 @@ def glue(kind, ring):
 CHANNELS = {f"multi_{k}_{r}": glue(k, r) for k in ("arc", "ogre_arc") for r in ("atomic", "full_sync")}
 
 HARNESSES = [  # (fn, props, call, pooled_only, stub_sync, thorough_only)
- ("send_fanout",                       "C03 C04",       "kit::multi_fanout::<Ch, $n, $m>(Entry::Send)", False, False),
+ ("send_fanout",                       "C03 C04 C06",       "kit::multi_fanout::<Ch, $n, $m>(Entry::Send)", False, False),
  ("send_with_fanout",                  "C03 C04 tier=thorough",       "kit::multi_fanout::<Ch, $n, $m>(Entry::SendWith)", False, False),
  ("send_with_async_fanout",            "C03 C04 tier=thorough",       "kit::multi_fanout::<Ch, $n, $m>(Entry::SendWithAsync)", False, False),
  ("try_send_reserved_fanout",          "C03 C04 C08",   "kit::multi_fanout::<Ch, $n, $m>(Entry::Reserved)", True, False),
